@@ -13,6 +13,7 @@ import (
 	"github.com/ipld/go-ipld-prime/codec/dagcbor"
 	"github.com/ipld/go-ipld-prime/datamodel"
 
+	"github.com/ucan-wg/go-ucan/internal/stream"
 	"github.com/ucan-wg/go-ucan/token"
 	"github.com/ucan-wg/go-ucan/token/delegation"
 	"github.com/ucan-wg/go-ucan/token/invocation"
@@ -101,7 +102,7 @@ func FromCbor(data []byte) (Reader, error) {
 
 // FromCborReader is the same as FromCbor, but with an io.Reader.
 func FromCborReader(r io.Reader) (Reader, error) {
-	n, err := ipld.DecodeStreaming(r, dagcbor.Decode)
+	n, err := ipld.DecodeStreaming(stream.Progress(r), dagcbor.Decode)
 	if err != nil {
 		return nil, err
 	}
